@@ -129,10 +129,14 @@ type Engine struct {
 	prog    *ssa.Program
 	sizes   types.Sizes
 	globals map[*ssa.Global]*Value
-	inited  map[*ssa.Package]bool
-	initing bool
-	S       *solver.Solver
-	opt     Options
+	// state of the package-level variables after initialisation: small ones are
+	// restored at the start of every path, large ones (tables) are assumed immutable
+	globalSnap map[*ssa.Global]Value
+	globalBig  map[*ssa.Global]bool
+	inited     map[*ssa.Package]bool
+	initing    bool
+	S          *solver.Solver
+	opt        Options
 
 	runtimeErrT types.Type
 
@@ -177,6 +181,7 @@ type Engine struct {
 	files         map[string][]Value // modelled regular files (osfile.go)
 	dirOff        map[*Value]int     // read position of modelled directory handles
 	md5Acc        map[*Value][]Value // bytes written to streaming MD5 digests
+	pools         map[*Value][]Value // free lists of sync.Pool values
 	gomaxprocs    *term.T
 	tableLoop     *tableLoopSpec
 	trace         []string
@@ -494,6 +499,111 @@ func (fr *frame) get(key ssa.Value) Value {
 		return r
 	}
 	panic(fmt.Sprintf("get: no value for %T: %v in %s", key, key.Name(), fr.fn))
+}
+
+// leaves counts the scalar cells of v up to limit (slices are followed).
+func leaves(v Value, limit int) int {
+	n := 0
+	var walk func(Value)
+	walk = func(v Value) {
+		if n > limit {
+			return
+		}
+		switch x := v.(type) {
+		case Struct:
+			for _, y := range x {
+				walk(y)
+			}
+		case Array:
+			n += len(x)
+			if len(x) > 0 {
+				if _, scalar := x[0].(*term.T); !scalar {
+					for _, y := range x {
+						walk(y)
+					}
+				}
+			}
+		case Tuple:
+			for _, y := range x {
+				walk(y)
+			}
+		case []Value:
+			n += len(x)
+			if len(x) > 0 {
+				if _, scalar := x[0].(*term.T); !scalar {
+					for _, y := range x {
+						walk(y)
+					}
+				}
+			}
+		default:
+			n++
+		}
+	}
+	walk(v)
+	return n
+}
+
+// snapCopy copies aggregates and slice contents (pointers and maps are shared).
+func snapCopy(v Value) Value {
+	switch x := v.(type) {
+	case Struct:
+		c := make(Struct, len(x))
+		for i, y := range x {
+			c[i] = snapCopy(y)
+		}
+		return c
+	case Array:
+		c := make(Array, len(x))
+		for i, y := range x {
+			c[i] = snapCopy(y)
+		}
+		return c
+	case Tuple:
+		c := make(Tuple, len(x))
+		for i, y := range x {
+			c[i] = snapCopy(y)
+		}
+		return c
+	case []Value:
+		if x == nil {
+			return x
+		}
+		c := make([]Value, len(x), cap(x))
+		for i, y := range x {
+			c[i] = snapCopy(y)
+		}
+		return c
+	}
+	return v
+}
+
+// resetGlobals gives every path the package-level state that initialisation
+// left behind: a path must not see what an earlier path stored.
+func (e *Engine) resetGlobals() {
+	if e.globalSnap == nil {
+		e.globalSnap = map[*ssa.Global]Value{}
+		e.globalBig = map[*ssa.Global]bool{}
+		for g, cell := range e.globals {
+			if leaves(*cell, 4096) > 4096 {
+				e.globalBig[g] = true
+				continue
+			}
+			e.globalSnap[g] = snapCopy(*cell)
+		}
+		return
+	}
+	for g, cell := range e.globals {
+		if e.globalBig[g] {
+			continue
+		}
+		if v, ok := e.globalSnap[g]; ok {
+			*cell = snapCopy(v)
+		} else {
+			// first touched during an earlier path: back to its zero value
+			delete(e.globals, g)
+		}
+	}
 }
 
 func (e *Engine) global(g *ssa.Global) *Value {
